@@ -193,6 +193,7 @@ def _case(draw, tier):
         chains = [draw(st.integers(0, 2)) for _ in range(k)]
         joins = [sorted(draw(st.lists(st.integers(0, k - 1), min_size=2, max_size=min(3, k), unique=True))) for _ in range(draw(st.integers(0, 2)))]
         return {"part": "C", "k": k, "multi": multi, "ifelse": use_ifelse, "chains": chains, "joins": joins, "pick": draw(st.lists(st.integers(0, 30), min_size=2, max_size=2)), "pick3": draw(st.integers(0, 30)) if prob(draw, 0.4) else None, "second_family": draw(st.integers(0, 1)) if prob(draw, 0.3) else None,
+                "contest": draw(st.integers(0, 40)) if prob(draw, 0.35) else None,
                 "target_order": draw(st.permutations(list(range(k)))), "node_order": draw(st.lists(st.integers(0, 9), min_size=14, max_size=14))}
     flaw = draw(st.sampled_from(FLAWS))
     if flaw.startswith("strict") or flaw.startswith("edge_"):
@@ -481,6 +482,7 @@ def _part_c(case, ev):
         nodes.append({"k": "func", "name": name, "params": params, "defaults": {}, "outs": outs})
         succ.setdefault(name, set())
 
+    chain_edges = []
     for i in range(k):
         add(f"t{i}", [], [f"vt{i}"])
         prev_out, prev = f"vt{i}", f"t{i}"
@@ -488,6 +490,7 @@ def _part_c(case, ev):
             nm = f"c{i}_{j}"
             add(nm, [prev_out], [f"v{nm}"])
             succ[prev].add(nm)
+            chain_edges.append((i, prev, nm, prev_out))
             prev_out, prev = f"v{nm}", nm
     for ji, members in enumerate(case["joins"]):
         nm = f"j{ji}"
@@ -511,6 +514,23 @@ def _part_c(case, ev):
         z = names[case["pick3"] % len(names)]
         if z not in prods:
             prods.append(z)  # a THIRD producer: every pair must be exclusive or ordered, adjacent in the node list or not
+    contested = None
+    if case.get("contest") is not None and chain_edges and not case["multi"]:
+        # the NAME carried by one chain edge p -> q gets a second, legal producer w in another (exclusive) branch: the edge still
+        # orders p before q, and w now feeds q as well
+        bi, p_, q_, e_ = chain_edges[case["contest"] % len(chain_edges)]
+        others = [n["name"] for n in nodes if n["name"][0] in "tc" and int(n["name"][1:].split("_")[0]) != bi]
+        # (a name that two producers of `r` themselves contest is deliberately not accepted as proof of their order: left out)
+        others = [o for o in others if not (o in prods and p_ in prods)]
+        if others:
+            w_ = others[(case["contest"] // max(1, len(chain_edges))) % len(others)]
+            for n in nodes:
+                if n["name"] == w_:
+                    n["outs"] = n["outs"] + [e_]
+            for n in nodes:
+                if e_ in n["params"]:
+                    succ[w_].add(n["name"])  # w feeds EVERY consumer of the name (q, and possibly a join)
+            contested = (p_, w_, e_, q_)
     # all of them produce the shared name `r` (as an additional output)
     for n in nodes:
         if n["name"] in prods:
@@ -549,10 +569,27 @@ def _part_c(case, ev):
         return mutex or q in reach(p) or p in reach(q)
 
     want_accept = all(pair_ok(p, q) for i, p in enumerate(prods) for q in prods[i + 1:])
+    if contested is not None:
+        want_accept = want_accept and pair_ok(contested[0], contested[1])
+        # With a second producer feeding q, q is reachable from two branches.  Whether such a node still counts as exclusive with a
+        # node of a THIRD branch is not settled by the documented rule (never together at run time, but not "exclusively reachable
+        # through one target"): the verdict is only asserted where both readings agree.
+        bs = {v: {t for t in targets if v in r[t]} for v in names}
+
+        def pair_ok2(p, q):
+            mutex = (not case["multi"]) and bool(bs[p]) and bool(bs[q]) and not (bs[p] & bs[q])
+            return mutex or q in reach(p) or p in reach(q)
+
+        want2 = all(pair_ok2(p, q) for i, p in enumerate(prods) for q in prods[i + 1:]) and pair_ok2(contested[0], contested[1])
+        if want2 != want_accept:
+            ev.discard("contested_edge:exclusivity_reading_dependent")
+            return
     if second_family is not None:
         want_accept = False  # the extra producer under the unrelated gate is neither exclusive with nor ordered to the others
         prods = prods + [second_family + " (under an unrelated gate)"]
     tag = f"conflict k={k} {'multi' if case['multi'] else 'exclusive'} producers {','.join(prods)} joins={case['joins']} targets listed {order}"
+    if contested is not None:
+        tag += f"; the edge {contested[0]} -{contested[2]}-> {contested[3]} carries a name that {contested[1]} (another exclusive branch) produces too"
 
     ctx = Ctx(compact=True)
     if want_accept:
@@ -562,6 +599,8 @@ def _part_c(case, ev):
     labels = {"part:C", f"k:{k}", "accept" if want_accept else "reject", "multi" if case["multi"] else "exclusive", f"producers:{len(prods)}"}
     if case["joins"]:
         labels.add("partial_join")
+    if contested is not None:
+        labels.add("ordering_edge_name_has_a_second_exclusive_producer")
     ev.case(case, k >= 3 or bool(case["joins"]), sorted(labels))
 
 
